@@ -542,6 +542,7 @@ func main() {
 		collectMode = os.Getenv("VERIF_COLLECT") != ""
 		seed, _ := strconv.ParseUint(a["seed"], 10, 64)
 		eventLogOn = true
+		enumFrom, enumTo = atoi(a["enumfrom"], -1), atoi(a["enumto"], -1)
 		res := runBatch(eng, seed, atoi(a["checks"], 20), a["tier"], 0, false, "")
 		res.Stats.Freeze()
 		fmt.Printf("%016x runs=%d steps=%d cases=%d sigs=%d viol=%v\n", eventLogHash, res.Stats.Runs, res.Stats.Steps, res.Stats.Cases, len(res.Stats.SigList), res.Violation != nil)
